@@ -12,6 +12,7 @@ Definition req_of_api (a : api) : option req :=
   | AGoto l c => Some (RGoto l c)
   | AMove d r => Some (RMove d r)
   | APrint str => Some (RPrint str)
+  | APrintf str => Some (RPrint str)
   | APrintn str len => Some (RPrint (firstn (Z.to_nat len) str))     (* the first len bytes *)
   | AErasech n me => Some (RErase n me)
   | AClear => Some RClear
